@@ -9,6 +9,7 @@ import Driver.C12
 import Driver.C33
 import Driver.C22
 import Driver.C34
+import Driver.C27
 import Driver.C29
 import Driver.C30
 import Driver.C05
@@ -43,6 +44,7 @@ def dispatch (fs : List String) : String :=
   | "c33" :: rest => Driver.c33 rest
   | "c22" :: rest => Driver.c22 rest
   | "c34" :: rest => Driver.c34 rest
+  | "c27d" :: rest => Driver.c27d rest
   | "c29" :: rest => Driver.c29 rest
   | "c30" :: rest => Driver.c30 rest
   | "c05" :: rest => Driver.c05 rest
